@@ -409,6 +409,19 @@ def run(only=None):
                 probes.append((f"{name}.correct_numpy_array", lambda cls=cls, c=c, n=n: to_int(cls.correct_numpy_array(numpy.array([int(b) for b in format(c ^ 2, f"0{n}b")])))))
     hist.poisoned_histories(s, funcs, bad_args, probes)
     s.done()
+    s = rep.sub("kept_results", "generate() of all 2^k messages of each code with every returned word kept by the caller until the last call: each is still "
+                                "the codeword of its own message; check_and_correct outputs of all single errors of one codeword kept likewise")
+    for name, cls in LIB.items():
+        n, k, d, g, ext = gf2.CODES[name]
+        hist.kept_results(s, f"{name}.generate", [({"code": name, "message": format(m, f"0{k}b")}, (lambda cls=cls, m=m, k=k: cls.generate(int2ba(m, k)))) for m in range(1 << k)],
+                          obs=to_int)
+        if name in HAMMING:
+            c = gf2.encode_systematic((1 << k) - 2, n, k, g, ext)
+            hist.kept_results(s, f"{name}.check_and_correct", [({"code": name, "flipped": i}, (lambda cls=cls, c=c, n=n, i=i: cls.check_and_correct(int2ba(c ^ (1 << i), n))[1])) for i in range(n)],
+                              obs=to_int)
+            hist.kept_results(s, f"{name}.correct_numpy_array", [({"code": name, "flipped": i}, (lambda cls=cls, c=c, n=n, i=i: cls.correct_numpy_array(numpy.array([int(b) for b in format(c ^ (1 << i), f"0{n}b")])))) for i in range(n)],
+                              obs=to_int)
+    s.done()
     s = rep.sub("long_call_history", "the same valid calls again and again in one process: depth 3 when a call leaves class/module data untouched (observed), "
                                      "2^16+256 calls per entry point when it does not, and always in the thorough tier")
     import okdmr.dmrlib.etsi.fec.hamming_common as _mh, okdmr.dmrlib.etsi.fec.fec_utils as _mu, okdmr.dmrlib.etsi.fec.golay_20_8_7 as _mg
